@@ -61,6 +61,8 @@ KINDS = {
     "empty": [], "only-dangling": [("link", "dang.txt", "nowhere.txt")], "only-cycle": [("link", "c1", "c2"), ("link", "c2", "c1")],
     # links resolved through other links, to the archive root, and with a trailing slash
     "link-chain": [("file", "real/f.txt", b"real f\n"), ("link", "alink.txt", "zdir/f.txt"), ("link", "zdir", "real"), ("link", "sub/through.txt", "../zdir/f.txt"), ("link", "sub/zz", "../zdir")],
+    # member paths that contain the archive's own file name again (with decoys where a removal of every occurrence would land)
+    "named-like-archive": [("file", "sums/tree.zip.md5", b"d41d8cd9  tree.zip\n"), ("file", "sums.md5", b"decoy sums\n"), ("file", "old/tree.zip/inner.txt", b"inner\n"), ("file", "old/inner.txt", b"decoy inner\n")],
     "link-root": [("file", "f.txt", b"file f\n"), ("file", "sub/g.txt", b"file g\n"), ("link", "toroot", "."), ("link", "sub/up", ".."), ("link", "sub/here", "."), ("link", "abs-slash", "/sub/"), ("link", "rel-slash", "sub/")],
 }
 ESCAPES = [("link", "sub/esc.txt", "../../outside.txt"), ("link", "esc2.txt", "../outside.txt"), ("link", "absout.txt", "/../outside.txt"), ("link", "sub/clamped.txt", "../../f.txt"), ("link", "empty-target", "")]
@@ -132,9 +134,8 @@ _STRIP = [
 def norm(out: bytes, zipside: bool):
     for rx, rep in _STRIP:
         out = rx.sub(rep, out)
-    if zipside:
-        out = out.replace(b"tree.zip", b"tree")
-        m = parsers.GP_STATUS.match(out)
+    # (on both sides: member names may contain the archive's own file name)
+    out = out.replace(b"tree.zip", b"tree")
     return out
 
 
